@@ -74,6 +74,10 @@ def make_world(ctx, ending, idx, opts=()):
             t.pop("ownstream", None)
             if not t.get("doctest"):
                 t["rebind"] = {"rebind-err": "err", "rebind-out": "out", "rebind-both": True}[ending]
+            # (a test that saves streams and puts them back does not also close the stream it finds: putting back a
+            # stream one has closed oneself is the test's own leak - false alarm of the thorough tier, seed 31)
+            for p_ in [t["setUp"], t["body"], t["tearDown"]] + t["subs"] + t["cleanups"]:
+                p_.pop("close", None)
     # test code that changes the warning filters for good, or installs and removes a trace function of its own
     for t in w["tests"]:
         if rng.random() < 0.4:
